@@ -28,16 +28,12 @@ theorem Rep.range_lt {s : State} {R : List Row} (h : Rep s R) (a : Nat) (ha : a 
   rw [h.row, offsets_getElem? 0 R a (by omega), offsets_getElem? 0 R (a + 1) (by omega)]
   simp
 
-theorem Rep.range_eq {s : State} {R : List Row} (h : Rep s R) :
-    neighborsRange s R.length = some (R.flatten.length, R.flatten.length) := by
-  unfold neighborsRange
-  rw [h.row, offsets_getElem? 0 R R.length (by omega), offsets_getElem?_none 0 R (R.length + 1) (by omega)]
-  simp [start_length, h.column_length]
-
-theorem Rep.range_gt {s : State} {R : List Row} (h : Rep s R) (a : Nat) (ha : R.length < a) :
+/-- since /repo commit aadb875 (repair of D32): `row[a + 1]` is indexed, so every node that does not exist panics -/
+theorem Rep.range_ge {s : State} {R : List Row} (h : Rep s R) (a : Nat) (ha : R.length ≤ a) :
     neighborsRange s a = none := by
   unfold neighborsRange
-  rw [h.row, offsets_getElem?_none 0 R a ha]
+  rw [h.row, offsets_getElem?_none 0 R (a + 1) (by omega)]
+  cases (offsets 0 R)[a]? <;> rfl
 
 theorem slice_map_rows {β : Type} (R : List Row) (f : Nat × Int → β) (a : Nat) (ha : a < R.length) :
     slice (R.flatten.map f) (start R a, start R (a + 1)) = some (R[a].map f) := by
